@@ -235,16 +235,6 @@ func (r *run) await(sig <-chan struct{}, what string) bool {
 		return true
 	default:
 	}
-	if r.bad {
-		t := time.NewTimer(3 * time.Second)
-		defer t.Stop()
-		select {
-		case <-sig:
-			return true
-		case <-t.C:
-			return false
-		}
-	}
 	wd := time.NewTimer(watchdog)
 	defer wd.Stop()
 	tick := 500 * time.Microsecond
@@ -256,7 +246,9 @@ func (r *run) await(sig <-chan struct{}, what string) bool {
 			return true
 		case <-wd.C:
 			t.Stop()
-			r.inconclusive("watchdog fired while waiting for " + what + "; no terminal state observable")
+			if !r.bad {
+				r.inconclusive("watchdog fired while waiting for " + what + "; no terminal state observable")
+			}
 			return false
 		case <-t.C:
 		}
@@ -272,7 +264,9 @@ func (r *run) await(sig <-chan struct{}, what string) bool {
 				return true
 			default:
 			}
-			r.violation(vs, msg, extra)
+			if !r.bad { // a run that already has its verdict only needs to get out
+				r.violation(vs, msg, extra)
+			}
 			return false
 		}
 	}
